@@ -415,6 +415,8 @@ class Session:
           self.ctor_runs = getattr(self, 'ctor_runs', 0) + 1
           return Opaque.get(7000 + self.ctor_runs - 1)
         r = encode(self.cfg.singleton_value(op['key'], ctor if op['ctor'] else None), self.gin)
+      elif name == 'macrolookup':
+        r = encode(self.cfg.ParserDelegate().macro(op['name']), self.gin)
       elif name == 'locked':
         r = bool(self.gin.config_is_locked())
       elif name == 'registry':
